@@ -150,3 +150,14 @@ Proof.
     rewrite E2. reflexivity.
 Qed.
 End G.
+
+(* ---- the Python-level view of one node used by the predecessor-collection loop (step 1) ------------------ *)
+(* an input slot: None, or a Value with its producer (None = graph input / initializer / no producer) *)
+Inductive pyin : Type := PNone | PVal (producer : option nat).
+(* an attribute: not an Attr / a reference attribute / GRAPH with the ids of the nodes directly in the graph /
+   GRAPHS with one id list per graph *)
+Inductive pyat : Type := POther | PRef | PGraph (l : list nat) | PGraphs (ls : list (list nat)).
+(* what Model.node keeps of them *)
+Definition view_in (i : pyin) : option nat := match i with PNone => None | PVal p => p end.
+Definition view_at (a : pyat) : list (list nat) :=
+  match a with POther => [] | PRef => [] | PGraph l => [l] | PGraphs ls => ls end.
